@@ -111,13 +111,19 @@ NBody(s)  == <<"body", s>>        \* Scope._body_done
 NQ(q)     == <<"q", q>>           \* Queue._notification
 NCh(c)    == <<"ch", c>>          \* Channel._notification
 
+\* the six comparisons of a tracked value (usim/_basics/tracked.py)
+Rels == {"ge", "le", "gt", "lt", "eq", "ne"}
+RelHolds(x, rel, v) == CASE rel = "ge" -> x >= v [] rel = "le" -> x <= v [] rel = "gt" -> x > v
+                         [] rel = "lt" -> x < v [] rel = "eq" -> x = v [] OTHER -> x # v
+
+
 \* current truth value of a condition-notification
 Holds(n) ==
   CASE n[1] = "flag"  -> flag[n[2]]
     [] n[1] = "nflag" -> ~flag[n[2]]
     [] n[1] = "done"  -> task[n[2]].done
     [] n[1] = "body"  -> sc[n[2]].bodydone
-    [] n[1] = "cmp"   -> obj.pool[n[2]].level >= n[3]
+    [] n[1] = "cmp"   -> RelHolds(obj.pool[n[2]].level, n[6], n[3])
     [] OTHER -> FALSE
 
 WaitersOf(sb, n) == SelectSeq(sb, LAMBDA y : y.n = n)
@@ -1042,8 +1048,10 @@ CondOp ==
 \* obj.pool[p] = [level, parent, debit]: pools 1..NRes are the supplies, higher ids are the shares
 \* (BorrowedResources) opened by borrow blocks; obj.lst[p] = live comparison instances (`available >= amt`)
 \* listening to pool p's Tracked value, in registration order.
-Cmp(p, amt, a, d) == <<"cmp", p, amt, a, d>>
-CmpHolds(o, n) == o.pool[n[2]].level >= n[3]
+\* a comparison instance of a tracked value (`tracked <rel> v`), private to the await that created it
+CmpR(p, amt, a, d, rel) == <<"cmp", p, amt, a, d, rel>>
+Cmp(p, amt, a, d) == CmpR(p, amt, a, d, "ge")
+CmpHolds(o, n) == RelHolds(o.pool[n[2]].level, n[6], n[3])
 \* Tracked.set: store the value, then every listener whose test is true triggers its waiters
 RECURSIVE FireFrom(_, _, _, _)
 FireFrom(o, ls, sb, pd) ==
@@ -1174,14 +1182,14 @@ ResOp ==
                 /\ ev' = E(B([op |-> kind, p |-> p, amt |-> amt]))
         /\ UNCHANGED <<cnt>>
      \/ /\ act[A].ops > 0 /\ In("await_lvl")
-        /\ \E p \in 1..NRes : \E v \in 0..2 :
-             \* `await (resources >= {a: v})`: a fresh comparison instance listens to the level for as long as it is awaited
+        /\ \E p \in 1..NRes : \E v \in 0..2 : \E rel \in (IF In("lvl_rels") THEN Rels ELSE {"ge"}) :
+             \* `await (resources <rel> {a: v})`: a fresh comparison instance listens to the level for as long as it is awaited
              LET ac1 == [ac EXCEPT ![A].cur = [op |-> "await_lvl", p |-> p]]
-                 n == Cmp(p, v, A, Len(ac1[A].stack) + 1)
+                 n == CmpR(p, v, A, Len(ac1[A].stack) + 1, rel)
                  o1 == [obj EXCEPT !.lst[p] = Append(@, n)] IN
              /\ obj' = o1
-             /\ ev' = E(B([op |-> "await_lvl", p |-> p, v |-> v]))
-             /\ IF obj.pool[p].level >= v
+             /\ ev' = E(B([op |-> "await_lvl", p |-> p, v |-> v, rel |-> rel]))
+             /\ IF RelHolds(obj.pool[p].level, rel, v)
                 THEN DoPostpone(Push(ac1, A, [k |-> "cwait", n |-> n]), pending) /\ subs' = subs
                 ELSE DoSubscribe(Push(ac1, A, [k |-> "cwait", n |-> n]), subs, n) /\ pending' = pending
         /\ UNCHANGED <<cnt>>
